@@ -654,7 +654,7 @@ def call_contract(ex, c, node, mod, fnobj, args, kwargs, st, fr):
     for ax in ex.spec.side:
         s1.assume(ax)
     ex.spec.side = []
-    s1.notes.append(('env', c.qualname, 'ret', res))
+    s1.notes.append(('env' if c.assumed else 'call', c.qualname, 'ret', res))
     outs.append(('val', res, s1))
     for exname, posts in c.raises.items():
         ecls = resolve_exc(exname)
@@ -662,7 +662,7 @@ def call_contract(ex, c, node, mod, fnobj, args, kwargs, st, fr):
         s2.trace.append('!' + exname + '@' + c.qualname)
         havoc(ex, c.raise_modifies if c.raise_modifies is not None else [], env, s2, c)
         e = VExc(ecls)
-        s2.notes.append(('env', c.qualname, 'raise', exname))
+        s2.notes.append(('env' if c.assumed else 'call', c.qualname, 'raise', exname))
         senv = SpecEnv(s2, dict(env), pre_env, None, e)
         for nm, text in posts:
             s2.assume(ex.spec.bool(text, senv))
